@@ -6,7 +6,7 @@ From RV.Model Require Import Base Word Limbs Bytes DivRecip DivSmall Redc.
 From RV.Model Require DivRef DivKnuth Shift.
 From RV.Gen Require Import Prim Scalar.
 From RV.Model Require Add Mul UDiv Conv Bits Pow Modular GcdMatrix Gcd.
-From RV.Proofs Require Import BaseFacts PfGenScalar PfGenAdd PfGenMul PfGenDiv PfGenSpecial PfGenCtor PfGenBits PfGenDivRef PfGenLimbs PfGenRedc PfGenKnuth PfGenShift PfGenPow PfGenModular PfGenMatrix PfGenGcd.
+From RV.Proofs Require Import BaseFacts PfGenScalar PfGenAdd PfGenMul PfGenDiv PfGenSpecial PfGenCtor PfGenBits PfGenDivRef PfGenLimbs PfGenRedc PfGenKnuth PfGenShift PfGenPow PfGenModular PfGenMatrix PfGenGcd PfGenInvRing.
 
 Theorem GenTie_source_equals_model :
   (forall bits, 0 <= bits -> bits + 63 < B -> g_nlimbs bits = Val (nlimbs bits)) /\
@@ -497,6 +497,14 @@ Proof.
 Qed.
 Print Assumptions GenTie_modular_pow.
 
+(* src/mul.rs: inv_ring — the u64 Newton steps in Wrapping<u64> arithmetic, `Self::from(2)` as From<i32>
+   (Model/Conv.v on both sides), `while correct_limbs < LIMBS` with the round bound LIMBS *)
+Theorem GenTie_inv_ring : forall bits a,
+  0 <= bits -> 2 * nlimbs bits < B -> length a = nlimbsN bits -> Forall inW a ->
+  g_inv_ring bits (nlimbs bits) a = Mul.inv_ring bits a.
+Proof. intros bits a H0 HB La Wa. exact (g_inv_ring_eq bits H0 HB a La Wa). Qed.
+Print Assumptions GenTie_inv_ring.
+
 (* the premises are satisfiable and the generated code computes: reciprocal(2^63) = 2^64 - 1 *)
 Example GenTie_nonvacuous :
   g_reciprocal_mg10 (2 ^ 63) = Val (2 ^ 64 - 1) /\ g_mask 65 = Val 1 /\ g_nlimbs 65 = Val 2 /\
@@ -518,6 +526,7 @@ Example GenTie_nonvacuous :
   g_arithmetic_shr 65 2 [0; 1] 64 = Val [2 ^ 64 - 1; 1] /\
   g_bitxor 65 2 [5; 1] [3; 1] = Val [6; 0] /\
   g_leading_zeros 65 2 [5; 0] = Val 62 /\
+  g_inv_ring 130 3 [3; 0; 0] = Val (Some [12297829382473034411; 12297829382473034410; 2]) /\
   g_mat_from_u64 240 46 = Val (9, 47, 23, 120, false) /\
   g_alg_gcd 65 2 [0; 1] [2 ^ 63 + 2 ^ 62; 0] = Val [2 ^ 62; 0] /\
   g_u_lcm 65 2 [6; 0] [4; 0] = Val (Some [12; 0]) /\
